@@ -88,4 +88,18 @@ let suite_hops (line : string) : string =
   done;
   Stdlib.String.concat " | " (Stdlib.List.rev !out)
 
+(* model-only: does the initial world of a hops case satisfy the hypotheses (HOk2) of the C01/C02/C06/C17 theorems?
+   Also evaluated on the final world (the theorems say it is preserved unless a bank is wiped out). *)
+let suite_hokcheck (line : string) : string =
+  let t = toks_of_line line in
+  let nb = ni t in let na = ni t in
+  let pf = parse_pf t in
+  let now0 = nz t in
+  let banks = Stdlib.List.init nb (fun _ -> parse_hbank t) in
+  let accts = Stdlib.List.init na (fun _ -> { M.ha_la = M.la_empty; ha_flags = zi 0 }) in
+  let utok = Stdlib.List.init na (fun _ -> Stdlib.List.init nb (fun _ -> two62)) in
+  let w = { M.hw_banks = banks; hw_accts = accts; hw_now = now0; hw_pf = pf; hw_utok = utok; hw_risk_admin_signs = false } in
+  if WorldCheck.hok2b w then "1" else "0"
+
 let () = register "hops" suite_hops
+let () = register "hokcheck" suite_hokcheck
